@@ -33,6 +33,9 @@ impl<S: BitmapSlice + Send + Sync> PassthroughFs<S> {
         let data = self.inode_map.get(inode)?;
         if !is_safe_inode(data.mode) {
             Err(ebadf())
+        } else if self.seal_size.load(Ordering::Relaxed) && flags & libc::O_TRUNC != 0 {
+            // A truncating open would change the size of a sealed file.
+            Err(eperm())
         } else {
             let mut new_flags = self.get_writeback_open_flags(flags);
             if !self.cfg.allow_direct_io && flags & libc::O_DIRECT != 0 {
@@ -882,6 +885,11 @@ impl<S: BitmapSlice + Send + Sync> FileSystem for PassthroughFs<S> {
         // so data.file won't be closed.
         // The fd is only borrowed: wrap it right away so that no early return can close it.
         let mut f = ManuallyDrop::new(unsafe { File::from_raw_fd(data.borrow_fd().as_raw_fd()) });
+
+        // With O_APPEND the data lands at EOF whatever `offset` says, so it always grows the file.
+        if self.seal_size.load(Ordering::Relaxed) && flags & (libc::O_APPEND as u32) != 0 {
+            return Err(eperm());
+        }
 
         self.check_fd_flags(data.clone(), f.as_raw_fd(), flags)?;
 
